@@ -17,7 +17,7 @@ RULE = (
     "started child, child closed before it was started, child ended by an exception thrown in / by a transient source error. non-trivial = every case; distinct by (tool, pattern, N)"
 )
 EXHAUSTIVE = {"quick": False, "thorough": False}
-SCOPE = {"quick": "N in {60, 240}", "thorough": "N in {200, 2000}"}
+SCOPE = {"quick": "N in {60, 240} (x4 for windows above 64)", "thorough": "N in {200, 2000}"}
 ASSUMPTIONS = ["CPython reference counting plus gc.collect() after every step; interpreter temporaries are covered by the slack constant",
                "tools documented to accumulate (cycle, sorted, list/tuple/set/dict, tee for lagging children) are not bounded"]
 SLACK = 3
@@ -230,6 +230,8 @@ AGGS = {
     "max_nums": (lambda S: A.max(S[0]), 1, None, "nums"),
     "nlargest4_reiter": (lambda S: A.nlargest(S[0], 4), 4, None, "reiter"),
     "min_reiter": (lambda S: A.min(S[0]), 1, None, "reiter"),
+    # a window larger than any plausible "small n" threshold
+    "nlargest100": (lambda S: A.nlargest(S[0], 100), 100), "nsmallest70_key": (lambda S: A.nsmallest(S[0], 70, key=lambda x: x.key), 70),
     # inputs with a length that still produce their items lazily: a short-cut taken "when n >= len" must not collect them all
     "nlargest4_sized": (lambda S: A.nlargest(S[0], 4), 4, None, "sized"), "nsmallest3_sized": (lambda S: A.nsmallest(S[0], 3), 3, None, "sized"),
     "nlargest4_sizedsync": (lambda S: A.nlargest(S[0], 4), 4, None, "sizedsync"), "min_sized": (lambda S: A.min(S[0]), 1, None, "sized"),
@@ -285,7 +287,8 @@ def cases(tier, rng):
     for name in TOOLS:
         yield {"tool": name, "family": "gen", "sizes": list(sizes)}
     for name in AGGS:
-        yield {"tool": name, "family": "agg", "sizes": list(sizes)}
+        big = AGGS[name][1] > 50         # both stream sizes must exceed the window
+        yield {"tool": name, "family": "agg", "sizes": [4 * n for n in sizes] if big else list(sizes)}
     for pat in TEE_PATTERNS:
         for nchild in (2, 3):
             yield {"tool": "tee", "family": "tee", "pattern": pat, "children": nchild, "sizes": list(sizes)}
